@@ -45,27 +45,37 @@ def ensure_registered():
         from eudoxia.workload.runtime_status import ASSIGNABLE_STATES, OperatorState
         s.known.extend(pipelines)
         sus, asg = [], []
+        sus_pipeline = None
         npools = s.executor.num_pools
         free = [[p.avail_cpu_pool, p.avail_ram_pool] for p in s.executor.pools]
-        # suspensions
-        if _next(4) == 0:
-            cands = [(c, p.pool_id) for p in s.executor.pools for c in p.active_containers]
+        # suspensions (up to two in one round)
+        chosen_c = set()
+        for _k in range(2):
+            if _next(4) != 0:
+                continue
+            cands = [(c, p.pool_id) for p in s.executor.pools for c in p.active_containers if c.container_id not in chosen_c]
             if cands:
                 mode = _next(5)
                 if mode != 0:
                     good = [x for x in cands if x[0].can_suspend_container()]
                     cands = good or cands
                 c, pid = cands[_next(len(cands))]
+                chosen_c.add(c.container_id)
                 sus.append(Suspend(c.container_id, pid))
                 _TAPE["moves"].append(("suspend", c.container_id, c.can_suspend_container()))
+                sus_pipeline = c.operators[0].pipeline
         # assignments
         for _ in range(_next(4)):
             live = [p for p in s.known if p.runtime_status().get_ops(ASSIGNABLE_STATES)]
             if not live:
                 break
             p = live[_next(len(live))]
+            mode = _next(11)
+            if sus_pipeline is not None and _next(2) == 0 and sus_pipeline in live:
+                # work of the pipeline whose container is being suspended in this very round
+                p = sus_pipeline
+                mode = 6 + _next(2)
             rs = p.runtime_status()
-            mode = _next(10)
             if mode <= 5:          # safe: ready operators, then their descendants in listing (topological) order
                 ready = rs.get_ops(ASSIGNABLE_STATES, require_parents_complete=True)
                 if not ready:
@@ -91,10 +101,15 @@ def ensure_registered():
                 allops = rs.get_ops(ASSIGNABLE_STATES)
                 ops = list(reversed(allops))[: (1 if not s.multi else 1 + _next(len(allops)))]
                 kind = "reversed"
-            else:                  # includes a busy / finished operator
+            elif mode == 9:        # includes a busy / finished operator
                 allops = list(rs.operator_states.keys())
                 ops = [allops[_next(len(allops))]]
                 kind = "anystate"
+            else:                  # assignable operators followed by one operator in any state (a stale retry list)
+                allops = list(rs.operator_states.keys())
+                ok_ops = rs.get_ops(ASSIGNABLE_STATES)
+                ops = ok_ops[: 1 + _next(len(ok_ops))] + [allops[_next(len(allops))]]
+                kind = "mixed"
             pool = _next(npools)
             if _next(40) == 0:
                 pool = npools + _next(2)
